@@ -9,6 +9,8 @@ package main
 // match (Fn, calleeName, Name) sees it under the name the rules use.
 
 import (
+	"sort"
+	"regexp"
 	"go/types"
 	"strings"
 
@@ -53,7 +55,7 @@ func callsResultType(fn *ssa.Function, typ string) bool {
 	found := false
 	allInstrs(fn, func(in ssa.Instruction) {
 		if c, ok := in.(*ssa.Call); ok {
-			if g := staticCallee(c.Common()); g != nil && g.Signature.Results().Len() > 0 && types.TypeString(g.Signature.Results().At(0).Type(), qual) == typ {
+			if g := staticCallee(c.Common()); g != nil && g.Signature.Results().Len() > 0 && tstr(g.Signature.Results().At(0).Type(), qual) == typ {
 				found = true
 			}
 		}
@@ -115,14 +117,14 @@ var fnRoles = []fnRole{
 func sigKey(fn *ssa.Function) string {
 	recv := ""
 	if r := fn.Signature.Recv(); r != nil {
-		recv = types.TypeString(r.Type(), qual)
+		recv = tstr(r.Type(), qual)
 	}
 	var ps, rs []string
 	for i := 0; i < fn.Signature.Params().Len(); i++ {
-		ps = append(ps, types.TypeString(fn.Signature.Params().At(i).Type(), qual))
+		ps = append(ps, tstr(fn.Signature.Params().At(i).Type(), qual))
 	}
 	for i := 0; i < fn.Signature.Results().Len(); i++ {
-		rs = append(rs, types.TypeString(fn.Signature.Results().At(i).Type(), qual))
+		rs = append(rs, tstr(fn.Signature.Results().At(i).Type(), qual))
 	}
 	k := recv + "|" + strings.Join(ps, ",") + "|" + strings.Join(rs, ",")
 	return strings.ReplaceAll(k, "any", "interface{}")
@@ -158,8 +160,8 @@ func (w *World) resolveRoles() (notes []string) {
 			fnAlias[fn] = ro.name
 			w.byName[ro.name] = fn
 			owned[fn] = true
-			notes = append(notes, ro.name+" is now "+fn.RelString(w.Types)+" (matched by receiver, signature and structure)")
-			if d := w.astDecl[fn.RelString(w.Types)]; d != nil {
+			notes = append(notes, ro.name+" is now "+unaliasTypes(fn.RelString(w.Types))+" (matched by receiver, signature and structure)")
+			if d := w.astDecl[unaliasTypes(fn.RelString(w.Types))]; d != nil {
 				w.astDecl[ro.name] = d
 			}
 		}
@@ -177,7 +179,7 @@ func (w *World) resolveRoles() (notes []string) {
 		if fn.Parent() != nil || fnAlias[fn] != "" {
 			continue
 		}
-		if _, known := funcInventory[fn.RelString(w.Types)]; known {
+		if _, known := funcInventory[unaliasTypes(fn.RelString(w.Types))]; known {
 			continue
 		}
 		if obj := fn.Object(); obj == nil || obj.Exported() {
@@ -193,8 +195,8 @@ func (w *World) resolveRoles() (notes []string) {
 		fn, name := fns[0], names[0]
 		fnAlias[fn] = name
 		w.byName[name] = fn
-		notes = append(notes, name+" is now "+fn.RelString(w.Types)+" (the only new function with the signature of the only missing one)")
-		if d := w.astDecl[fn.RelString(w.Types)]; d != nil {
+		notes = append(notes, name+" is now "+unaliasTypes(fn.RelString(w.Types))+" (the only new function with the signature of the only missing one)")
+		if d := w.astDecl[unaliasTypes(fn.RelString(w.Types))]; d != nil {
 			w.astDecl[name] = d
 		}
 	}
@@ -235,7 +237,13 @@ var fieldAlias = map[string]map[string]string{}
 // pinned layout does not know (by elimination; several of one type: in declaration order).
 func (w *World) resolveFieldAliases() (notes []string) {
 	for sname, pinned := range fieldTable {
-		tn, ok := w.Types.Scope().Lookup(sname).(*types.TypeName)
+		lookup := sname
+		for cur, old := range typeAlias {
+			if old == sname {
+				lookup = cur
+			}
+		}
+		tn, ok := w.Types.Scope().Lookup(lookup).(*types.TypeName)
 		if !ok {
 			continue
 		}
@@ -253,7 +261,7 @@ func (w *World) resolveFieldAliases() (notes []string) {
 			f := st.Field(i)
 			present[f.Name()] = true
 			if !known[f.Name()] {
-				t := types.TypeString(f.Type(), qual)
+				t := tstr(f.Type(), qual)
 				extras[t] = append(extras[t], f.Name())
 			}
 		}
@@ -292,11 +300,95 @@ func roleFieldName(t types.Type, name string) string {
 		t = p.Elem()
 	}
 	if n, ok := t.(*types.Named); ok {
-		if m := fieldAlias[n.Obj().Name()]; m != nil {
+		nm := n.Obj().Name()
+		if a, ok := typeAlias[nm]; ok {
+			nm = a
+		}
+		if m := fieldAlias[nm]; m != nil {
 			if a, ok := m[name]; ok {
 				return a
 			}
 		}
 	}
 	return name
+}
+
+
+// ---------------------------------------------------------------- named types
+
+// typeAlias: current name of a package-level type -> the name the pinned tree (and the rules) know it by.
+var typeAlias = map[string]string{}
+var typeAliasRe *regexp.Regexp
+
+// tstr is types.TypeString with renamed types spelled as the pinned tree spells them.
+func tstr(t types.Type, q types.Qualifier) string {
+	return unaliasTypes(types.TypeString(t, q))
+}
+
+// unaliasTypes rewrites whole-word occurrences of renamed type names.
+func unaliasTypes(s string) string {
+	if len(typeAlias) == 0 {
+		return s
+	}
+	return typeAliasRe.ReplaceAllStringFunc(s, func(m string) string { return typeAlias[m] })
+}
+
+func setTypeAliases(m map[string]string) {
+	typeAlias = m
+	typeAliasRe = nil
+	if len(m) == 0 {
+		return
+	}
+	var names []string
+	for n := range m {
+		names = append(names, regexp.QuoteMeta(n))
+	}
+	sort.Strings(names)
+	typeAliasRe = regexp.MustCompile(`\b(` + strings.Join(names, "|") + `)\b`)
+}
+
+// typeShape: what a renamed type keeps — its underlying type, with field names for structs.
+func typeShape(t types.Type) string {
+	return tstr(t.Underlying(), qual)
+}
+
+// resolveTypeAliases: a type of the pinned inventory (types_gen.go) that is gone is matched with the only new type of the
+// same shape. Two passes, so that a shape mentioning another renamed type still matches.
+func resolveTypeAliases(pkg *types.Package) (notes []string) {
+	setTypeAliases(nil)
+	for pass := 0; pass < 2; pass++ {
+		aliases := map[string]string{}
+		for k, v := range typeAlias {
+			aliases[k] = v
+		}
+		missing := map[string][]string{} // shape -> pinned names absent today
+		for name, shape := range typeInventory {
+			if pkg.Scope().Lookup(name) == nil {
+				missing[shape] = append(missing[shape], name)
+			}
+		}
+		fresh := map[string][]string{} // shape -> new names
+		for _, name := range pkg.Scope().Names() {
+			tn, ok := pkg.Scope().Lookup(name).(*types.TypeName)
+			if !ok || tn.IsAlias() {
+				continue
+			}
+			if _, known := typeInventory[name]; known {
+				continue
+			}
+			fresh[typeShape(tn.Type())] = append(fresh[typeShape(tn.Type())], name)
+		}
+		for shape, olds := range missing {
+			news := fresh[shape]
+			if len(olds) == 1 && len(news) == 1 {
+				aliases[news[0]] = olds[0]
+			}
+		}
+		setTypeAliases(aliases)
+	}
+	for n, o := range typeAlias {
+		notes = append(notes, "type "+o+" is now "+n+" (the only new type with its shape)")
+	}
+	sort.Strings(notes)
+	return notes
 }
